@@ -184,9 +184,13 @@ def de_correspondence(ctx, res, by, qs, items, dd, st):
         S.theorem_scope(res)
     plain = res.get("plain_idents", set())
 
+    def no_flatten(d):
+        return not any(f["flatten"] for f in (d["fields"] if d["kind"] == "struct" else [f for v in d["variants"] for f in v["fields"]]))
+
     def in_scope(t):
+        # C01's plain fragment minus flatten (the Deserialize model has no flatten: serde reads flattened fields through its buffer)
         named = CR.referenced(t, set())
-        return all(i in plain for i in named) and all(d["ident"] in plain for d in reach(by, t))
+        return all(i in plain for i in named) and all(d["ident"] in plain and no_flatten(d) for d in reach(by, t))
     scope = [(qi, k, text) for qi, k, text in items if in_scope(qs[qi]) and not CR.big_array(qs[qi])]
     probes, seen = [], set()
     for qi, k, text in scope:
